@@ -252,7 +252,7 @@ def one_history(ctx, gid, n_steps, mon):
                 res = fn(x, y)
             elif k < 0.34:
                 desc = ("pow", type(a).__name__)
-                res = a ** r.choice([1, 2, 3])
+                res = a ** r.choice([1, 2, 3, 0, -1, 4, True])  # (what ** 0 or ** -1 answers is not this property's business - that it leaves a alone is)
             elif k < 0.46:
                 u = r.choice(units_for(a))
                 if isinstance(a, (Fraction, FractionValue)):
